@@ -256,7 +256,7 @@ func c13AfterReject(r *rux.Router, paths []string, what string, st *fw.Stats, ad
 	for _, p := range paths {
 		st.Evals++
 		if pv := try(func() { r.Match("GET", p) }); pv != nil {
-			add("lookup:panic:after-rejected-definition", fmt.Sprintf("%s was rejected by registration (the panic was recovered); the router, which holds accepted definitions only, then panicked in Match(GET,%q): %v", what, p, pv))
+			add("lookup:panic:after-rejected-definition", fmt.Sprintf("%s was rejected by registration or registered again (a panic, if any, was recovered); the router, which holds accepted definitions only, then panicked in Match(GET,%q): %v", what, p, pv))
 			return
 		}
 	}
@@ -459,6 +459,29 @@ func c13Run(c c13Case, st *fw.Stats) []fw.Viol {
 				}
 				// no options at all is not a change
 				_ = try(func() { r.WithOptions() })
+			}
+		}
+		// ONE Route value registered a second time (on the same router / on a second one): whether that is accepted or
+		// rejected, the router that accepted it first still matches without a panic
+		for _, pat := range []string{"/d/{id}", "/o[/{x}]", "/s", `/d/{id:\d+}/{k}`} {
+			for _, second := range []string{"same router", "second router", "second router through AttachTo"} {
+				st.Evals++
+				r1 := rux.New(opts...)
+				rt := rux.NewRoute(pat, c13Noop, "GET")
+				if pv := try(func() { r1.AddRoute(rt) }); pv != nil {
+					continue
+				}
+				_ = try(func() {
+					switch second {
+					case "same router":
+						r1.AddRoute(rt)
+					case "second router":
+						rux.New(opts...).AddRoute(rt)
+					default:
+						rt.AttachTo(rux.New(opts...))
+					}
+				})
+				c13AfterReject(r1, []string{"/d/1", "/d/1/2", "/o", "/o/2", "/s", "/d/x/y"}, fmt.Sprintf("Route %q, accepted by a router (options mask %d) and then registered again on the %s,", pat, c.Opts, second), st, add)
 			}
 		}
 		// an option function applied DIRECTLY (not through WithOptions) after routes exist: the call may be rejected, but
